@@ -575,6 +575,63 @@ def redeclare_case(seed_str):
     return {"prog": prog, "text": text, "lm": lm, "meta": {"family": "redeclared-type", "which": which, "seed": seed_str}}
 
 
+def twin_array_literal_case(seed_str):
+    """well-formed: two token-identical struct literals that contain an ARRAY OF STRUCTS, used for two
+    struct types whose array attribute has different element types"""
+    rng = random.Random(seed_str)
+    prog = faults.with_support(gen_check.WGen(rng).gen_program())
+    NUM = ("plain", "number")
+    n0 = len(prog["structs"])
+    prog["structs"] += [{"name": "Parcel", "attrs": [("size", NUM)]}, {"name": "Letter", "attrs": [("size", NUM)]},
+                        {"name": "Van", "attrs": [("cargo", ("array", "Parcel", None)), ("spare", ("plain", "Parcel"))]},
+                        {"name": "Bag", "attrs": [("cargo", ("array", "Letter", None)), ("spare", ("plain", "Letter"))]}]
+    prog["order"] += [("struct", n0 + i) for i in range(4)]
+    k = rng.choice([1, 2, 3])
+    one = ("obj", [("size", ("num", gen_check.Fraction(rng.choice([1, 2, 5]))))])
+    lit = ("obj", [("cargo", ("arr", [one] * k)), ("spare", one)])
+    names = ["Van", "Bag"]
+    rng.shuffle(names)
+    seq = [("service", "Sv", [("lit", names[0], gen_check.clone(lit))], []),
+           ("service", "Sb", [("lit", names[1], gen_check.clone(lit))], [])]
+    if rng.random() < 0.5:   # the second one in another task
+        prog["tasks"].append({"name": "tlit", "ins": [], "body": [seq.pop()], "outs": []})
+        prog["order"].append(("task", len(prog["tasks"]) - 1))
+        seq.append(("call", "tlit", [], []))
+    prod = next(t for t in prog["tasks"] if t["name"] == "productionTask")
+    at = rng.randrange(len(prod["body"]) + 1)
+    prod["body"][at:at] = seq
+    order = list(prog["order"])
+    rng.shuffle(order)
+    prog["order"] = order
+    lm = {}
+    text = gen_check.render(prog, gen_check.rand_layout(rng), lm)
+    return {"prog": prog, "text": text, "lm": lm, "meta": {"family": "wf-twin-literals", "seed": seed_str}}
+
+
+def repeated_out_case(seed_str):
+    """well-formed: a called task returns THE SAME variable at several positions together with a
+    variable of another type; the call declares the matching types"""
+    rng = random.Random(seed_str)
+    prog = faults.with_support(gen_check.WGen(rng).gen_program())
+    NUM, FIN, FQ = ("plain", "number"), faults.FIN, faults.FQ
+    pattern = rng.choice([["v", "v", "r"], ["v", "r", "v"], ["r", "v", "v"], ["r", "r", "v", "v"], ["v", "v"]])
+    ty = {"v": rng.choice([NUM, FQ]), "r": FIN}
+    prog["tasks"].append({"name": "trep", "ins": [],
+                          "body": [("service", "Sr", [], [("v", ty["v"]), ("r", ty["r"])])], "outs": pattern})
+    prog["order"].append(("task", len(prog["tasks"]) - 1))
+    prod = next(t for t in prog["tasks"] if t["name"] == "productionTask")
+    call = ("call", "trep", [], [("o%d" % i, ty[x]) for i, x in enumerate(pattern)])
+    use = ("service", "Su", [("var", "o0"), ("var", "o%d" % (len(pattern) - 1))], [])
+    at = rng.randrange(len(prod["body"]) + 1)
+    prod["body"][at:at] = [call, use]
+    order = list(prog["order"])
+    rng.shuffle(order)
+    prog["order"] = order
+    lm = {}
+    text = gen_check.render(prog, gen_check.rand_layout(rng), lm)
+    return {"prog": prog, "text": text, "lm": lm, "meta": {"family": "wf-repeated-out", "seed": seed_str}}
+
+
 def support_case(seed_str):
     """the fault-free host of the mutants: must be certified well-formed and accepted"""
     rng = random.Random(seed_str)
@@ -661,6 +718,9 @@ def slice_C11(pid, cfg, tier, seed, workdir, rep, stats, findings):
         cases.append(loop_scope_case("%d/%s/scopes/%d" % (seed, pid, i)))
     for i in range(max(24, n // 6)):
         cases.append(attr_var_clash_case("%d/%s/clash/%d" % (seed, pid, i), i % 3))
+    for i in range(max(12, n // 12)):
+        cases.append(twin_array_literal_case("%d/%s/twinlit/%d" % (seed, pid, i)))
+        cases.append(repeated_out_case("%d/%s/repout/%d" % (seed, pid, i)))
     stats["generated"] += len(cases)
     evaluate(cases, workdir)
     samples = []
@@ -1071,19 +1131,20 @@ def slice_C16(pid, cfg, tier, seed, workdir, rep, stats, findings):
 
 
 # ---- C09 -----------------------------------------------------------------------------
-def to_impl_value(v):
+def to_impl_value(v, whole_as_float=False):
+    """whole_as_float: an execution engine that reads JSON may deliver the number 3 as 3.0"""
     from fractions import Fraction
     from pfdl_scheduler.model.struct import Struct
     from pfdl_scheduler.model.array import Array
     if isinstance(v, bool):
         return v
     if isinstance(v, Fraction):
-        return int(v) if v.denominator == 1 else float(v)
+        return (float(v) if whole_as_float else int(v)) if v.denominator == 1 else float(v)
     if isinstance(v, tuple):
         return v[1]
     if isinstance(v, list):
-        return Array(values=[to_impl_value(x) for x in v])
-    return Struct(attributes={k: to_impl_value(x) for k, x in v.items()})
+        return Array(values=[to_impl_value(x, whole_as_float) for x in v])
+    return Struct(attributes={k: to_impl_value(x, whole_as_float) for k, x in v.items()})
 
 
 def _fixed_value(v):
@@ -1107,6 +1168,7 @@ def drive_accepted(text, prog, seed_str, max_calls=300, values=None):
     from pfdl_scheduler.scheduler import Scheduler
     from pfdl_scheduler.scheduling.event import Event
     rng = random.Random(seed_str)
+    floats = random.Random("floats/" + str(seed_str)).random() < 0.3    # this engine delivers whole numbers as floats
     vt = gen_check.var_types(prog)
     sdef = {s["name"]: dict(s["attrs"]) for s in prog["structs"]}
     state = {"queries": 0}
@@ -1122,7 +1184,7 @@ def drive_accepted(text, prog, seed_str, max_calls=300, values=None):
         if t is None:
             t = ("plain", "number")
         try:
-            return to_impl_value(gen_check.value_for(t, sdef, rng, final=final))
+            return to_impl_value(gen_check.value_for(t, sdef, rng, final=final), whole_as_float=floats)
         except KeyError:
             return to_impl_value(gen_check.Fraction(0))
 
